@@ -107,6 +107,10 @@ def to_pyval(v):
         if any(c is None for c in cells):
             return None
         return ["objarray", list(v.shape), cells]
+    if isinstance(v, np.dtype) and v.names and v.hasobject:
+        return ["unsupported", "structured dtype with an object field"]      # refused at dump (its helper array is)
+    if isinstance(v, np.ndarray) and v.dtype.names and v.dtype.hasobject:
+        return ["unsupported", "record array with an object field"]
     if isinstance(v, (np.ndarray, np.generic, np.dtype, np.random.RandomState, np.random.Generator, bytes, bytearray, np.ufunc, type)):
         return ["opaque", type(v).__name__, ""]
     return None
